@@ -2,6 +2,7 @@
 from vlib import *
 import spec
 from c_common import AFF, RECT
+from math import hypot
 
 
 @contract("nanoemoji.colr_to_svg.map_font_space_to_viewbox", props=["C13"])
@@ -143,6 +144,9 @@ class apply_solid_ot_paint_stub:
 
 @contract("nanoemoji.colr_to_svg._apply_gradient_ot_paint", props=["C13"])
 class apply_gradient_ot_paint_stub:
+    # modular summary used by _colr_v1_paint_to_svg: empty postcondition, i.e. nothing is
+    # assumed about the call (the clauses there only speak about its arguments); the function
+    # itself is under the contracts apply_gradient_ot_paint_linear / _radial below
     assumed = True
     args = {
         "svg_defs": Opaque("any"), "svg_path": Opaque("any"), "ttfont": Opaque("any"), "font_to_vbox": AFF,
@@ -151,7 +155,7 @@ class apply_gradient_ot_paint_stub:
     returns = Const(None)
     ensures = {}
     native = False
-    note = "defines the gradient mapped through `transform` then font_to_vbox (its pieces: _map_gradient_coordinates, radial split, svg gradient definitions are under contract; the whole is in the bounded tier)"
+    note = "summary with an empty postcondition (only the call's arguments are used); the function itself is under the contracts apply_gradient_ot_paint_linear / _radial"
 
 
 @contract("nanoemoji.colr_to_svg._draw_svg_path", props=["C13"])
@@ -395,3 +399,104 @@ def _is_black(ttfont, idx):
     # foreground (0xFFFF) maps to the currentColor sentinel (-1,-1,-1): not black
     pal = ttfont["CPAL"].palettes[0]
     return idx != 0xFFFF and (pal[idx].red, pal[idx].green, pal[idx].blue) == (0, 0, 0)
+
+
+# ---- _apply_gradient_ot_paint: gradient geometry goes through pending transform and V --------
+
+_AGOP = "nanoemoji.colr_to_svg._apply_gradient_ot_paint"
+_AGP2 = "nanoemoji.svg._apply_gradient_paint"
+_DEC = "nanoemoji.paint._decompose_uniform_transform"
+_STOP = Obj(StopOffset=Real, PaletteIndex=Int, Alpha=Real)
+_CL = lambda ext: Obj(ColorStop=ListOf(_STOP, _STOP), Extend=Const(ext))
+_CPAL1 = Const({"CPAL": Obj(palettes=ListOf(SeqOf(Obj(red=Int, green=Int, blue=Int, alpha=Int))))})
+
+
+def _stops_ok(ttfont, ot_paint):
+    pal = ttfont["CPAL"].palettes[0]
+    return all(s.PaletteIndex >= 0 and (s.PaletteIndex == 0xFFFF or s.PaletteIndex < len(pal)) for s in ot_paint.ColorLine.ColorStop)
+
+
+def _stop_colour(ttfont, s):
+    pal = ttfont["CPAL"].palettes[0]
+    # foreground -> currentColor sentinel (-1,-1,-1) carrying the stop's alpha
+    return (
+        (-1, -1, -1, s.Alpha)
+        if s.PaletteIndex == 0xFFFF
+        else (pal[s.PaletteIndex].red, pal[s.PaletteIndex].green, pal[s.PaletteIndex].blue, s.Alpha * pal[s.PaletteIndex].alpha / 255)
+    )
+
+
+def _stops_kept(ttfont, ot_paint, g):
+    return len(g.stops) == 2 and all(
+        g.stops[i].stopOffset == ot_paint.ColorLine.ColorStop[i].StopOffset
+        and (g.stops[i].color.red, g.stops[i].color.green, g.stops[i].color.blue, g.stops[i].color.alpha) == _stop_colour(ttfont, ot_paint.ColorLine.ColorStop[i])
+        for i in range(0, 2)
+    )
+
+
+@contract(_AGOP, props=["C13", "C15"])
+class apply_gradient_ot_paint_linear:
+    """linear gradient: all three points through pending-transform-then-V; no gradientTransform"""
+
+    scope = "finite: colour lines of 2 stops, the 3 extend modes"
+    args = {
+        "svg_defs": Opaque("any"),
+        "svg_path": Obj(attrib=Const({})),
+        "ttfont": _CPAL1,
+        "font_to_vbox": AFF,
+        "ot_paint": OneOf(*[Obj(Format=Const(4), ColorLine=_CL(e), x0=Real, y0=Real, x1=Real, y1=Real, x2=Real, y2=Real) for e in (0, 1, 2)]),
+        "reuse_cache": Obj(gradient_ids=AssocOf()),
+        "transform": AFF,
+    }
+    requires = [lambda ttfont, ot_paint: _stops_ok(ttfont, ot_paint)]
+    ensures = {
+        "points-through-pending-then-viewbox-map": lambda ot_paint, transform, font_to_vbox, calls: _lin3(calls[_AGP2][0].args.paint)
+        == tuple(spec.pt(spec.ltr(spec.aff(transform), spec.aff(font_to_vbox)), p) for p in ((ot_paint.x0, ot_paint.y0), (ot_paint.x1, ot_paint.y1), (ot_paint.x2, ot_paint.y2))),
+        "no-gradient-transform": lambda calls: spec.aff(calls[_AGP2][0].args.transform) == spec.ID,
+        "colour-line": lambda ttfont, ot_paint, calls: _stops_kept(ttfont, ot_paint, calls[_AGP2][0].args.paint)
+        and calls[_AGP2][0].args.paint.extend.value == (ot_paint.ColorLine.Extend,),
+        "same-element": lambda svg_path, calls: calls[_AGP2][0].args.svg_path is svg_path,
+    }
+    native = False
+
+
+def _lin3(g):
+    return (tuple(g.p0), tuple(g.p1), tuple(g.p2))
+
+
+@contract(_AGOP, props=["C13", "C15"])
+class apply_gradient_ot_paint_radial:
+    """radial gradient: with (U, R) the uniform/residual split of pending-then-V, circles go
+    through U (centres mapped, radii scaled) and R is the gradientTransform, so that the
+    gradient is drawn through  U then R  =  pending then V"""
+
+    scope = "finite: colour lines of 2 stops, extend mode repeat (the colour line code is shared with the linear case, which covers all three modes)"
+    args = {
+        "svg_defs": Opaque("any"),
+        "svg_path": Obj(attrib=Const({})),
+        "ttfont": _CPAL1,
+        "font_to_vbox": AFF,
+        "ot_paint": Obj(Format=Const(6), ColorLine=_CL(1), x0=Real, y0=Real, r0=Real, x1=Real, y1=Real, r1=Real),
+        "reuse_cache": Obj(gradient_ids=AssocOf()),
+        "transform": AFF,
+    }
+    requires = [
+        lambda ttfont, ot_paint: _stops_ok(ttfont, ot_paint) and ot_paint.r0 >= 0 and ot_paint.r1 >= 0,
+        # pending-then-V is not (numerically) singular
+        lambda transform, font_to_vbox: hypot(spec.ltr(spec.aff(transform), spec.aff(font_to_vbox))[0], spec.ltr(spec.aff(transform), spec.aff(font_to_vbox))[1])
+        * hypot(spec.ltr(spec.aff(transform), spec.aff(font_to_vbox))[2], spec.ltr(spec.aff(transform), spec.aff(font_to_vbox))[3])
+        > 2 ** -52,
+    ]
+    may_raise = ("ZeroDivisionError", "AssertionError")
+    ensures = {
+        "split-of-pending-then-viewbox-map": lambda transform, font_to_vbox, calls: spec.aff(calls[_DEC][0].args.transform)
+        == spec.ltr(spec.aff(transform), spec.aff(font_to_vbox)),
+        "circles-through-the-uniform-part": lambda ot_paint, calls: tuple(calls[_AGP2][0].args.paint.c0) == spec.pt(spec.aff(calls[_DEC][0].result[0]), (ot_paint.x0, ot_paint.y0))
+        and tuple(calls[_AGP2][0].args.paint.c1) == spec.pt(spec.aff(calls[_DEC][0].result[0]), (ot_paint.x1, ot_paint.y1))
+        and calls[_AGP2][0].args.paint.r0 == ot_paint.r0 * calls[_DEC][0].result[0].a
+        and calls[_AGP2][0].args.paint.r1 == ot_paint.r1 * calls[_DEC][0].result[0].a,
+        "residual-is-the-gradient-transform": lambda calls: spec.aff(calls[_AGP2][0].args.transform) == spec.aff(calls[_DEC][0].result[1]),
+        "colour-line": lambda ttfont, ot_paint, calls: _stops_kept(ttfont, ot_paint, calls[_AGP2][0].args.paint)
+        and calls[_AGP2][0].args.paint.extend.value == (ot_paint.ColorLine.Extend,),
+    }
+    native = False
